@@ -581,3 +581,40 @@ Print Assumptions C12_facts_positional_order.
 Theorem C12_facts_view_option_plumbing : view_option_plumbing_ok = true.
 Proof. exact Facts_ok_plumbing. Qed.
 Print Assumptions C12_facts_view_option_plumbing.
+
+(* ---- round 7: pyramid.csrf_trusted_origins is read when the request is checked (not when the view was derived) *)
+Theorem C12_origin_history_s_const : forall pr settings caller allow rs,
+  origin_history_s pr caller allow (map (fun r => (settings, r)) rs) = origin_history pr settings caller allow rs.
+Proof. exact origin_history_s_const. Qed.
+Print Assumptions C12_origin_history_s_const.
+
+Theorem C12_settings_history_independent : forall st caller allow rs,
+  origin_history_s (the_params st) caller allow rs =
+  (map (fun sr => fst (check_csrf_origin_p (the_params st) (fst sr) caller allow (snd sr))) rs, caller).
+Proof. exact settings_history_independent. Qed.
+Print Assumptions C12_settings_history_independent.
+
+Theorem C12_gate_under_current_settings : forall c s r,
+  wf_tokens (with_settings c s) r = true ->
+  (view_outcome (with_settings c s) r = Ran <-> spec_runs (with_settings c s) r = true).
+Proof. exact gate_under_current_settings. Qed.
+Print Assumptions C12_gate_under_current_settings.
+
+Theorem C12_settings_only_feed_origin_check : forall c s r,
+  effective (with_settings c s) = effective c /\ checks_apply (with_settings c s) r = checks_apply c r /\
+  wf_tokens (with_settings c s) r = wf_tokens c r.
+Proof. exact settings_only_feed_origin_check. Qed.
+Print Assumptions C12_settings_only_feed_origin_check.
+
+Theorem C12_revoked_origin_refused : forall pr c s r,
+  checks_apply c r = true -> o_check_origin (effective c) = true ->
+  spec_origin_ok s None (o_allow_no_origin (effective c)) r = false ->
+  view_outcome_p pr (with_settings c s) r <> Ran.
+Proof. exact revoked_origin_refused. Qed.
+Print Assumptions C12_revoked_origin_refused.
+
+Theorem C12_gen_api_get_after_new : forall s r st,
+  r_fresh r <> [] ->
+  gen_api_get s r (snd (gen_api_new s r st)) = (r_fresh r, Some (r_fresh r)).
+Proof. exact gen_api_get_after_new. Qed.
+Print Assumptions C12_gen_api_get_after_new.
